@@ -35,7 +35,7 @@ Definition config_funcs : list string :=
 Definition ctx_readers : list string :=
   ["Request.reply"; "queryRequest.reply"; "resource.QueryEvent"; "Service.close"; "Service.subscribe"] ++ config_funcs.
 
-Definition lock_fields : list string := ["rwork"; "workqueue"; "workbuf"].
+Definition lock_fields : list string := ["rwork"; "workqueue"; "workbuf"; "stopped"].
 Definition lockw_fields : list string := ["nc"; "inCh"; "queryTQ"; "workcond"].
 Definition config_fields : list string :=
   ["logger"; "queueGroup"; "resetResources"; "resetAccess"; "ownedResources"; "ownedAccess"; "queryDuration"; "workerCount"; "inChannelSize";
